@@ -4,11 +4,15 @@ import CnbVerif.Spec.Streaming
 /-!
 Driver glue for C19.
 
-* `A  <marker hex>  <prefix hex, - = empty>  <chunks>`: chunks separated by `,`, `_` = an empty chunk, `-` = no write at all.
+* `A  <marker hex>  <prefix hex, - = empty>  <chunks>  [<writers>]`: chunks separated by `,`, `_` = an empty chunk, `-` = no write at all.
   Observation `drop=…;unwrap=…;line=…;teea=…;teeb=…;ret=1` (hex): what the inner writer holds after `mapped(.., marker,
   add_prefix(prefix))` was fed the chunks and dropped / unwrapped, the same for `line_mapped`, the two tee targets,
   and whether every `write` call returned the chunk length.
-* `B  <seq|par>  -  <items>`: items (separated by `;`) `o|e.<len>.<seed>.<delay ms>`; byte `i` of an item is `(seed + i) % 251`.
+  `<writers>` = `-` (plain `Vec`s) or `<first tee target>/<second tee target>/<inner writer of the mapped writers>`, each
+  `f` (accepts everything) | `s<k>` (at most k bytes per call) | `a<k>` (odd calls everything, even calls at most k), optionally
+  followed by `i<n>` (every n-th call fails with `Interrupted`, n >= 2). The chunks are fed with a `write_all` loop; `ret` says
+  whether every `write` call took its whole buffer (compared with the model only, the property does not constrain it).
+* `B  <seq|par>  <- | stdout writer/stderr writer>  <items>`: items (separated by `;`) `o|e.<len>.<seed>.<delay ms>`; byte `i` of an item is `(seed + i) % 251`.
   Observation `o=<len>:<fnv>/<len>:<fnv>;e=…;status=0` (returned `Output` buffer / supplied writer), or `timeout`.
 -/
 namespace CnbVerif.DriverC19
@@ -34,6 +38,39 @@ def parseItem (s : String) : Option (Bool × Bytes) :=
 
 def parseScript (s : String) : Option Script := allSome ((splitList s ";").map parseItem)
 
+structure WSpec where
+  mode : Char
+  k : Nat
+  intr : Nat
+
+def parseWSpec (s : String) : Option WSpec :=
+  match s.toList with
+  | [] => none
+  | m :: rest =>
+    if m ≠ 'f' ∧ m ≠ 's' ∧ m ≠ 'a' then none else
+    match (String.ofList rest).splitOn "i" with
+    | [ks] => (if m = 'f' then (if ks = "" then some ⟨m, 0, 0⟩ else none) else (ks.toNat?).bind (fun k => if k ≥ 1 then some ⟨m, k, 0⟩ else none))
+    | [ks, ns] =>
+      match (if m = 'f' then (if ks = "" then some 0 else none) else (ks.toNat?).bind (fun k => if k ≥ 1 then some k else none)), ns.toNat? with
+      | some k, some n => if n ≥ 2 then some ⟨m, k, n⟩ else none
+      | _, _ => none
+    | _ => none
+
+/-- the behaviour script of a scripted writer for its first `n` calls (`0` = Interrupted, else the accept limit) -/
+def WSpec.script (w : WSpec) (n : Nat) : List Nat :=
+  (List.range n).map (fun j =>
+    let c := j + 1
+    if w.intr > 0 ∧ c % w.intr = 0 then 0
+    else if w.mode = 'f' then 1000000
+    else if w.mode = 's' then w.k
+    else if c % 2 = 1 then 1000000 else w.k)
+
+def parseWriters (n : Nat) (s : String) : Option (List WSpec) :=
+  if s = "-" then some (List.replicate n ⟨'f', 0, 0⟩)
+  else match allSome ((s.splitOn "/").map parseWSpec) with
+    | some l => if l.length = n then some l else none
+    | none => none
+
 def renderA (d u l a b : Bytes) : String :=
   "drop=" ++ hexEncode d ++ ";unwrap=" ++ hexEncode u ++ ";line=" ++ hexEncode l ++
   ";teea=" ++ hexEncode a ++ ";teeb=" ++ hexEncode b ++ ";ret=1"
@@ -56,34 +93,39 @@ def firstSome : List (Option String) → Option String
 
 def scriptTotal (sc : Script) : Nat := (sc.map (·.2.length)).foldl (· + ·) 0
 
+def handleA (m p chunks writers obs : String) : String × String :=
+  match hexDecode m, (if p = "-" then some [] else hexDecode p), parseChunks chunks, parseWriters 3 writers with
+  | some [m], some p, some chunks, some [wa, wb, wi] =>
+    let f := addPrefix p
+    let input := chunks.flatten
+    -- the models over scripted (short-writing) targets; by C19.mapped_output_short_writes / tee_full_input_short_writes
+    -- the contents do not depend on the scripts
+    let out := runS m f (wi.script (2 * (run m f chunks).length + 4)) chunks
+    let line := runS 10 f (wi.script (2 * (run 10 f chunks).length + 4)) chunks
+    let t := teeRunS (wa.script (2 * input.length + 4)) (wb.script (2 * input.length + 4)) chunks
+    let model := renderA out out line t.a t.b
+    let verdict :=
+      match obs.splitOn ";" with
+      | [d, u, l, a, b, r] =>
+        (match firstSome [
+            checkPart "mapped-drop" (kv "drop" d) (mappedOutput m f input),
+            checkPart "mapped-unwrap" (kv "unwrap" u) (mappedOutput m f input),
+            checkPart "line_mapped-drop" (kv "line" l) (mappedOutput 10 f input),
+            checkPart "tee-first-target" (kv "teea" a) (teeOutput input),
+            checkPart "tee-second-target" (kv "teeb" b) (teeOutput input),
+            (if r = "ret=1" ∨ r = "ret=0" then none else some "unparsable-observation ret")] with
+        | none => "ok"
+        | some why => "fail:" ++ why)
+      | _ => "fail:unparsable-observation"
+    (model, verdict)
+  | _, _, _, _ => ("bad-op", "bad-op")
+
 def handle (fields : List String) (obs : String) : String × String :=
   match fields with
-  | ["A", m, p, chunks] =>
-    match hexDecode m, (if p = "-" then some [] else hexDecode p), parseChunks chunks with
-    | some [m], some p, some chunks =>
-      let f := addPrefix p
-      let out := run m f chunks
-      let line := run 10 f chunks
-      let t := teeRun chunks
-      let model := renderA out out line t.a t.b
-      let input := chunks.flatten
-      let verdict :=
-        match obs.splitOn ";" with
-        | [d, u, l, a, b, r] =>
-          (match firstSome [
-              checkPart "mapped-drop" (kv "drop" d) (mappedOutput m f input),
-              checkPart "mapped-unwrap" (kv "unwrap" u) (mappedOutput m f input),
-              checkPart "line_mapped-drop" (kv "line" l) (mappedOutput 10 f input),
-              checkPart "tee-first-target" (kv "teea" a) (teeOutput input),
-              checkPart "tee-second-target" (kv "teeb" b) (teeOutput input),
-              (if r = "ret=1" then none else some "a write call did not report the whole chunk as written")] with
-          | none => "ok"
-          | some why => "fail:" ++ why)
-        | _ => "fail:unparsable-observation"
-      (model, verdict)
-    | _, _, _ => ("bad-op", "bad-op")
-  | ["B", mode, "-", items] =>
-    if mode ≠ "seq" ∧ mode ≠ "par" then ("bad-op", "bad-op") else
+  | ["A", m, p, chunks] => handleA m p chunks "-" obs
+  | ["A", m, p, chunks, writers] => handleA m p chunks writers obs
+  | ["B", mode, writers, items] =>
+    if (mode ≠ "seq" ∧ mode ≠ "par") ∨ (parseWriters 2 writers).isNone then ("bad-op", "bad-op") else
     match parseScript items with
     | some script =>
       -- small scripts: run the step model itself (pipe capacity 3, first-enabled scheduler); large: its proved final state
